@@ -359,6 +359,74 @@ where
     }
 }
 
+/// A sub-image whose first pixel lies at an *exact* special offset of the (padded) pixel stream:
+/// a multiple of 2^16 - 1, 2^16, 2^16 + 1, a power of two or its neighbour (seeded `C09-13`: the
+/// initial skip applied in steps of 65 535, one pixel too far for exact multiples only).
+fn special_offset_case<C, O>(ctx: &mut Ctx, tname: &'static str, rng: &mut Rng)
+where
+    C: Col,
+    O: DataOrder,
+    for<'a> RawDataSlice<'a, C::Raw, O>: IntoIterator<Item = C::Raw>,
+{
+    let bpp = C::bits();
+    let alt = O::IS_ALTERNATE_ORDER;
+    let w = match rng.below(4) {
+        0 => *rng.pick(&[255u32, 256, 257, 771, 1285, 4369]),
+        1 => rng.u32r(1, 64),
+        _ => rng.u32r(64, 1400),
+    };
+    // pixels per padded row
+    let dw = (stride(w, bpp) * 8 / bpp as usize) as u64;
+    let k = rng.u32r(1, 6) as u64;
+    let t: u64 = match rng.below(8) {
+        0 | 1 | 2 => k * 65_535,
+        3 => k * 65_536,
+        4 => k * 65_537,
+        5 => 1u64 << rng.u32r(8, 18),
+        6 => (1u64 << rng.u32r(8, 18)) - 1,
+        _ => k * *rng.pick(&[255u64, 256, 4095, 4096, 32_767, 32_768]),
+    };
+    let (y, x) = ((t / dw) as u32, (t % dw) as u32);
+    if x >= w {
+        // the offset falls into the row padding: no pixel starts there
+        ctx.count("special_offsets_in_row_padding", 1);
+        return;
+    }
+    let hh = rng.u32r(1, 3);
+    let h = y + hh;
+    let len = stride(w, bpp) * h as usize;
+    let data = rng.bytes(len);
+    let o = Point::new(rng.i32r(-20, 20), rng.i32r(-20, 20));
+    let Ok(raw) = ImageRaw::<C, O>::new(&data, Size::new(w, h)) else {
+        ctx.violation(format!("{}|new-length-check", tname), || format!("{} {}x{} buffer length {}", tname, w, h, len), || "ImageRaw::new rejects a buffer of the required length".to_string());
+        return;
+    };
+    let img = Img { data: &data, w, h, bpp, alt };
+    let (sw, sh) = (rng.u32r(1, (w - x).min(6)), rng.u32r(1, hh));
+    let a = rect(x as i32, y as i32, sw, sh);
+    let eff = Some((x as i64, y as i64, sw as i64, sh as i64));
+    let want = img.expected::<C>(eff, o, None);
+    let base = format!("{} {}x{} (padded row {} pixels), first pixel of the sub-image at stream offset {}", tname, w, h, dw, t);
+    ctx.eval();
+    let sub = raw.sub_image(&a);
+    check_draw::<C, _>(ctx, tname, "sub-image-at-special-offset", &Image::new(&sub, o), &want, (sw * sh) as u64, &|| format!("{} sub_image({:?}) at ({},{})", base, a, o.x, o.y));
+    // the same area reached through a full-width strip
+    let y0 = rng.u32r(0, y);
+    let strip = raw.sub_image(&rect(0, y0 as i32, w, h - y0));
+    let inner = rect(x as i32, (y - y0) as i32, sw, sh);
+    let sub2 = strip.sub_image(&inner);
+    ctx.eval();
+    check_draw::<C, _>(ctx, tname, "nested-sub-image-at-special-offset", &Image::new(&sub2, o), &want, (sw * sh) as u64, &|| format!("{} sub_image({:?}).sub_image({:?}) at ({},{})", base, rect(0, y0 as i32, w, h - y0), inner, o.x, o.y));
+    // and the pixel itself
+    let got = raw.pixel(Point::new(x as i32, y as i32)).map(|c| c.to_u32());
+    let wantp = Some(C::from_u32(model_pixel(&data, w, bpp, alt, x, y)).to_u32());
+    if got != wantp {
+        ctx.violation(format!("{}|pixel-wrong-value", tname), || format!("{} pixel(({},{}))", base, x, y), || format!("got {:x?} expected {:x?}", got, wantp));
+    }
+    ctx.nontrivial(mix(mix(egmon::rng::hash_str(tname), t), ((w as u64) << 32) | x as u64));
+    ctx.count("sub_images_at_special_stream_offsets", 1);
+}
+
 fn sweep<C, O>(run: &Run)
 where
     C: Col,
@@ -404,6 +472,9 @@ where
         }
         ctx.count("images_with_a_side_beyond_16_bits", 1);
     });
+    let sname: &'static str = Box::leak(format!("{}-special-stream-offsets", tname).into_boxed_str());
+    let sreps = run.tier(60u64, 6000u64);
+    run.generate(sname, sreps, false, 0.1, |ctx, _idx, rng| special_offset_case::<C, O>(ctx, tname, rng));
 }
 
 fn main() {
